@@ -302,6 +302,18 @@ PROPS["C28"] = drive_plan("exploration", "c28", ["--corpora", 2, "--max-docs", 3
     "lexical results are compared as sets of (frame, range): BM25 statistics legitimately differ between segment layouts; vector and timeline results are compared as sequences"])
 
 
+PROPS["C08"] = drive_plan("exploration", "c08", ["--histories", 4], ["--histories", 80], assumptions=_HIST_ASSUME + [
+    "frame_by_uri may fall back to an inactive frame when the URI has no active version; it is judged only for returning the newest active version when one exists",
+    "ask is driven in lexical, context-only mode"])
+PROPS["C18"] = drive_plan("exploration", "c18", ["--histories", 10], ["--histories", 300], assumptions=[
+    "a state with pending records is obtained by copying the file while a writer has un-committed puts (a crash image at an operation boundary)",
+    "identical-byte rewrites would go unnoticed by the before/after hash (the recorder-based C02 machinery sees them)"])
+PROPS["C40"] = drive_plan("exploration", "c40", ["--histories", 4], ["--histories", 80], assumptions=[
+    "reference = the same documents ingested with plain puts and one commit", "lexical results compared as frame sets, vector results as id sequences"])
+PROPS["C42"] = drive_plan("exploration", "c42", ["--histories", 5], ["--histories", 100], assumptions=_HIST_ASSUME + [
+    "payload-reusing updates are applied to un-chunked documents only (for chunked ones the content is already lost before the vacuum: known C07 finding)"])
+
+
 def _c19_sidecar(pid, tier, seed, scratch, bindir):
     return C.run_sharded(os.path.join(bindir, "mvdrive"), "sidecar", ["--rounds", 2 if tier == "quick" else 20], 2 if tier == "quick" else 8, seed, scratch)
 
